@@ -31,8 +31,8 @@ type Sort struct {
 var (
 	SBool  = Sort{K: KBool}
 	SInt   = Sort{K: KInt}
-	SStr   = Sort{K: KUnint, Name: "Str"}
-	SSeq   = Sort{K: KUnint, Name: "Seq"}
+	SStr   = Sort{K: KUnint, Name: "GoStr"}
+	SSeq   = Sort{K: KUnint, Name: "ByteSeq"}
 	SFP64  = Sort{K: KFP64}
 	SBV8   = BV(8)
 	SBV64  = BV(64)
